@@ -39,6 +39,9 @@ def taylorExpFix (y : Int) : Int := Id.run do
 
 def expRat (x : Rat) : Rat :=
   if x == 0 then 1 else
+  -- saturate: the callers only ever compare with 1 (acceptance) or with values of order 1
+  if x > 200 then ((2 ^ 280 : Nat) : Rat) else
+  if x < -200 then 0 else
   -- halve until |y| ≤ 1/16
   let m := Id.run do
     let mut m := 0
